@@ -10,6 +10,8 @@ pub fn dispatch(op: &str, req: &Value) -> Value {
         "ts_sweep" => ts_sweep(req),
         "semver_convert" => semver_convert(req),
         "pep_convert" => pep_convert(req),
+        "render" => render(req),
+        "preset_schema" => preset_schema(req),
         _ => json!({"error": format!("unknown op {op}")}),
     }
 }
@@ -113,4 +115,78 @@ fn pep_convert(req: &Value) -> Value {
     json!({"semver_printed": string_to_cps(&sv.to_string()), "semver_again_printed": string_to_cps(&sv2.to_string()),
         "back": pep440_to_json(&back), "equal": a == back && a.cmp(&back) == std::cmp::Ordering::Equal,
         "printed": string_to_cps(&a.to_string()), "back_printed": string_to_cps(&back.to_string())})
+}
+
+use zerv::version::zerv::{Component, PreReleaseLabel, PreReleaseVar, Var, ZervSchema, ZervVars};
+
+fn var_of(name: &str) -> Var {
+    match name {
+        "Major" => Var::Major, "Minor" => Var::Minor, "Patch" => Var::Patch, "Epoch" => Var::Epoch,
+        "PreRelease" => Var::PreRelease, "Post" => Var::Post, "Dev" => Var::Dev, "Distance" => Var::Distance,
+        "Dirty" => Var::Dirty, "BumpedBranch" => Var::BumpedBranch, "BumpedCommitHash" => Var::BumpedCommitHash,
+        "BumpedCommitHashShort" => Var::BumpedCommitHashShort, "BumpedTimestamp" => Var::BumpedTimestamp,
+        "LastBranch" => Var::LastBranch, "LastCommitHash" => Var::LastCommitHash,
+        "LastCommitHashShort" => Var::LastCommitHashShort, "LastTimestamp" => Var::LastTimestamp,
+        other => panic!("unknown var {other}"),
+    }
+}
+
+fn comps(v: &Value) -> Vec<Component> {
+    v.as_array().unwrap().iter().map(|c| {
+        if let Some(n) = c["var"].as_str() { Component::Var(var_of(n)) }
+        else if !c["ts"].is_null() { Component::Var(Var::Timestamp(cps_to_string(&c["ts"]))) }
+        else if !c["str"].is_null() { Component::Str(cps_to_string(&c["str"])) }
+        else { Component::UInt(c["uint"].as_u64().unwrap()) }
+    }).collect()
+}
+
+pub fn vars_of(v: &Value) -> ZervVars {
+    let mut z = ZervVars::default();
+    z.custom = serde_json::json!({});
+    let s = |k: &str| -> Option<String> { if v[k].is_null() { None } else { Some(cps_to_string(&v[k])) } };
+    z.major = v["major"].as_u64(); z.minor = v["minor"].as_u64(); z.patch = v["patch"].as_u64();
+    z.epoch = v["epoch"].as_u64(); z.post = v["post"].as_u64(); z.dev = v["dev"].as_u64();
+    z.distance = v["distance"].as_u64(); z.dirty = v["dirty"].as_bool();
+    z.bumped_branch = s("bumped_branch"); z.bumped_commit_hash = s("bumped_commit_hash");
+    z.last_branch = s("last_branch"); z.last_commit_hash = s("last_commit_hash");
+    z.bumped_timestamp = v["bumped_timestamp"].as_u64(); z.last_timestamp = v["last_timestamp"].as_u64();
+    if !v["pre_release"].is_null() {
+        let label = match v["pre_release"]["label"].as_str().unwrap() { "alpha" => PreReleaseLabel::Alpha, "beta" => PreReleaseLabel::Beta, _ => PreReleaseLabel::Rc };
+        z.pre_release = Some(PreReleaseVar { label, number: v["pre_release"]["number"].as_u64() });
+    }
+    z
+}
+
+fn render(req: &Value) -> Value {
+    use std::str::FromStr;
+    let sch = &req["schema"];
+    let schema = match ZervSchema::new(comps(&sch[0]), comps(&sch[1]), comps(&sch[2])) {
+        Ok(s) => s,
+        Err(e) => return json!({"error": format!("schema: {e}")}),
+    };
+    let zerv = Zerv { schema, vars: vars_of(&req["vars"]) };
+    if req["fmt"].as_str() == Some("semver") {
+        let v: SemVer = zerv.into();
+        let out = v.to_string();
+        let rp = SemVer::from_str(&out);
+        let rer = rp.as_ref().ok().map(|p| { let z: Zerv = p.clone().into(); let w: SemVer = z.into(); string_to_cps(&w.to_string()) });
+        json!({"out": string_to_cps(&out), "reparse_ok": rp.is_ok(), "rerendered": rer})
+    } else {
+        let v: PEP440 = zerv.into();
+        let out = v.to_string();
+        let rp = PEP440::from_str(&out);
+        let rer = rp.as_ref().ok().map(|p| { let z: Zerv = p.clone().into(); let w: PEP440 = z.into(); string_to_cps(&w.to_string()) });
+        json!({"out": string_to_cps(&out), "reparse_ok": rp.is_ok(), "rerendered": rer})
+    }
+}
+
+fn preset_schema(req: &Value) -> Value {
+    use std::str::FromStr;
+    let name = req["preset"].as_str().unwrap();
+    let kebab: String = name.chars().enumerate().flat_map(|(i, c)| {
+        if c.is_uppercase() && i > 0 { vec!['-', c.to_ascii_lowercase()] } else { vec![c.to_ascii_lowercase()] } }).collect();
+    match zerv::schema::ZervSchemaPreset::from_str(&kebab) {
+        Ok(p) => { let s = p.schema_with_zerv(&vars_of(&req["vars"])); json!({"schema": format!("{:?}", s)}) }
+        Err(e) => json!({"error": e.to_string()}),
+    }
 }
